@@ -79,6 +79,7 @@ class Recorder:
             if put_loc:
                 r['out']['src_pos'] = positions_pruned(root.a, sub_ids)
             r['kind'] = ast_.__class__.__name__
+            r['doc_lns'] = sorted(doc_str_lns(ast_))
             rec.recs.append(r)
             return ret
 
@@ -90,6 +91,19 @@ class Recorder:
         self.FST._make_fst_and_dedent = self.orig_make
         self.FST._get_indentable_lns = self.orig_lns
         return False
+
+
+def doc_str_lns(a):
+    """0-based continuation lines of multi-line *str* constants that stand alone as an expression statement: the only
+    string lines the `docstr` option may ever declare indentable (bytes, f-strings, strings inside other expressions
+    never are)."""
+    out = set()
+    for n in ast.walk(a):
+        if isinstance(n, ast.Expr):
+            v = n.value
+            if isinstance(v, ast.Constant) and isinstance(v.value, str) and getattr(v, 'end_lineno', None) is not None:
+                out.update(range(v.lineno, v.end_lineno))
+    return out
 
 
 def ser_tree_pruned(a, skip_ids):
@@ -179,6 +193,11 @@ def rec_to_case(r):
                 elif r['docstr'] is False and set(range(skip, n_new)) & cont != set(str_lns):
                     problem = (f'lines {sorted((set(range(skip, n_new)) & cont) - set(str_lns))} start inside a string '
                                f'token but were treated as indentable (docstr=False)')
+                else:
+                    must = (set(range(skip, n_new)) & cont) - set(r.get('doc_lns', ()))
+                    if not must <= set(str_lns):
+                        problem = (f'lines {sorted(must - set(str_lns))} start inside a string/bytes/f-string token that is '
+                                   f'not a str expression statement but were treated as indentable (docstr={r["docstr"]!r})')
     elif r['lns_calls']:
         problem = 'dedent attempted with empty indent'
     if 'put_loc' in r and (min(r['put_loc']) < 0 or min(r['loc']) < 0):
@@ -262,11 +281,18 @@ def _strip_f(a):
     return new
 
 
+def doc_norm(v):
+    """value of a genuine docstring candidate modulo the documented re-indentation: blanks at the start of a physical line
+    are not compared. A physical line may start after a backslash-newline inside the literal, which leaves no newline in
+    the value, so all blank runs are dropped."""
+    return re.sub(r'[ \t]+', '', v)
+
+
 class _DocNorm(ast.NodeTransformer):
     def visit_Expr(self, node):
         v = node.value
         if isinstance(v, ast.Constant) and isinstance(v.value, str):
-            v.value = re.sub(r'\n[ \t]*', '\n', v.value)
+            v.value = doc_norm(v.value)
         return node
 
 
@@ -412,3 +438,21 @@ def root_pos_only(a, b):
         return x.__class__.__name__ + kids
 
     return strip(a) == strip(b)
+
+
+def literal_bag(a, docstr):
+    """multiset of the str / bytes constant values of a tree; genuine docstring candidates (str constants standing alone
+    as an expression statement) modulo the documented re-indentation when `docstr` allows it"""
+    doc = set()
+    if docstr is not False:
+        for n in ast.walk(a):
+            if isinstance(n, ast.Expr) and isinstance(n.value, ast.Constant) and isinstance(n.value.value, str):
+                doc.add(id(n.value))
+    bag = collections.Counter()
+    for n in ast.walk(a):
+        if isinstance(n, ast.Constant) and isinstance(n.value, (str, bytes)):
+            v = n.value
+            if id(n) in doc:
+                v = doc_norm(v)
+            bag[(type(v).__name__, v)] += 1
+    return bag
